@@ -28,6 +28,7 @@ const (
 	mLeafMod   = 4 // custom LeafMatcher on the leaf timestamp: (ts - T0) % MatchMod == MatchArg % MatchMod
 	mTimestamp = 5 // scanner.MatchSCTTimestamp (timestamp of index MatchArg)
 	mParseFail = 6 // scanner.CertParseFailMatcher
+	mParseWarn = 7 // scanner.CertParseFailMatcher{MatchNonFatalErrs: true}
 )
 
 type serialMod struct{ mod, rem uint64 }
@@ -70,6 +71,8 @@ func selected(c *Case, tr truth, i int64) bool {
 		return tr.Parsable && i == int64(c.MatchArg)
 	case mParseFail:
 		return !tr.Parsable
+	case mParseWarn:
+		return !tr.Parsable || tr.NonFatal
 	}
 	return false
 }
@@ -93,6 +96,8 @@ func matcherFor(c *Case) interface{} {
 		return scanner.MatchSCTTimestamp{Timestamp: t0 + uint64(c.MatchArg)}
 	case mParseFail:
 		return scanner.CertParseFailMatcher{}
+	case mParseWarn:
+		return scanner.CertParseFailMatcher{MatchNonFatalErrs: true}
 	}
 	return scanner.MatchAll{}
 }
@@ -109,7 +114,7 @@ func genScan(t *rapid.T) Case { return genCase(t, true) }
 func checkScan(t *testing.T, c Case) (v harness.Verdict) {
 	c.normalise()
 	pool()
-	if c.Matcher < 0 || c.Matcher > mParseFail {
+	if c.Matcher < 0 || c.Matcher > mParseWarn {
 		c.Matcher = mAll
 	}
 	if c.MatchArg < 0 {
@@ -217,10 +222,13 @@ func checkScan(t *testing.T, c Case) (v harness.Verdict) {
 	if n["beyond"] > 0 {
 		v.Failf("delivered-beyond-range", "%d reports beyond the range; first: %s", n["beyond"], firstMsg["beyond"])
 	}
-	nsel, ncert, npre, ngarbage := 0, 0, 0, 0
+	nsel, ncert, npre, ngarbage, nwarnSel := 0, 0, 0, 0, 0
 	for i := e.lo; i < e.hi; i++ {
 		if !log[i].Parsable {
 			ngarbage++
+		}
+		if log[i].NonFatal && selected(&c, log[i], i) {
+			nwarnSel++
 		}
 		if !selected(&c, log[i], i) {
 			continue
@@ -258,6 +266,9 @@ func checkScan(t *testing.T, c Case) (v harness.Verdict) {
 	}
 	if ngarbage > 0 {
 		v.Class("range:has-unparsable")
+	}
+	if nwarnSel > 0 {
+		v.Class("selected:has-nonfatal-parse-error")
 	}
 	if c.Workers >= 2 {
 		v.Class("workers:2+")
